@@ -587,6 +587,23 @@ def fam_dfa2regexp(rec, rng):
         pok, out, o2 = run_checker(nb.check_dfa2regexp, t1, text, n)
         judge(rec, 'dfa2regexp', 'check_dfa2regexp', pok, LA == Lref, 'language', out, answer=text, mutant=nm, instance=(t1, n))
         check_counterexample(rec, 'check_dfa2regexp', out, LA, Lref, answer=text, dfa=t1)
+    if cands and cands[0][0] == 'library_answer' and len(R[1]) >= 1:
+        # answers that differ from the reference only on ONE long word (length 7 or 8), checked with the default bound 8
+        base = cands[0][1]
+        allw = None
+        for L_ in (7, 8):
+            for _ in range(30):
+                wd = ''.join(rng.choice(R[1]) for _ in range(L_))
+                if not fa.accepts_graph(R, wd):
+                    wr = ('s', wd[0])
+                    for ch in wd[1:]:
+                        wr = ('.', wr, ('s', ch))
+                    A = ('+', base, wr)
+                    if rx.size_iter(A) <= 120:
+                        text = txt.render_regexp_simple(A)
+                        pok, out, o2 = run_checker(nb.check_dfa2regexp, t1, text)
+                        judge(rec, 'dfa2regexp', 'check_dfa2regexp', pok, False, 'language:long_word_only', out, answer=text, mutant='extra_long_word', instance=(t1, 8))
+                    break
     if cands:
         good = txt.render_regexp_simple(cands[0][1])
         for (nm, text) in ill_formed_regexps(good):
@@ -705,6 +722,21 @@ def fam_cyk(rec, rng):
             continue
         pok, out, o = run_checker(ng.check_cyk_matrix, t0, w, text)
         judge(rec, 'cyk', 'check_cyk_matrix', pok, why is None, why or '', out, answer=text, mutant=nm, instance=(t0, w))
+    # malformed spellings of the CORRECT value of one cell (also of values that occur earlier in the table)
+    for _ in range(6):
+        i = rng.randrange(len(rows))
+        j = rng.randrange(len(rows[i]))
+        val = rows[i][j]
+        body = ','.join(val)
+        spell = rng.choice(['{' + body, body + '}', body if body else ',', '{' + body + '}}', '{{' + body + '}', '{' + ''.join(val) + '}' if len(val) >= 2 else '{' + body + ',}',
+                            '{' + body + ',}', '{,' + body + '}', '(' + body + ')'])
+        if spell == '{' + body + '}' or not spell:
+            continue
+        cells = [['{' + ','.join(c) + '}' for c in r] for r in rows]
+        cells[i][j] = spell
+        text = '\n'.join('  '.join(r) for r in cells)
+        pok, out, o = run_checker(ng.check_cyk_matrix, t0, w, text)
+        judge(rec, 'cyk', 'check_cyk_matrix', pok, False, 'ill_formed_text:malformed_entry', out, answer=text, instance=(t0, w))
     good = render_rows(rows)
     for (nm, text) in (('unknown_variable', good.replace('{', '{Ω,', 1) if '{' in good else good + ' {Ω}'), ('ill_formed_entry', good + ' {A,,B}'), ('not_a_set', good.replace('{', '[', 1))):
         if text == good:
